@@ -16,7 +16,7 @@ import traceback
 FIXED_POINT = ("fix_paragraphs", "fix_nesting", "remove_breaking_returns")
 CALL_CAP = 4_000_000          # deterministic cap per pass: CALL_CAP + CALL_CAP_PER_NODE * nodes profiled calls
 CALL_CAP_PER_NODE = 40_000    # (normal: < 100 calls per node; fix_nesting's deepcopies reach 2*10^4 per node)
-WATCHDOG_S = 30
+WATCHDOG_S = 180              # hang detector only (normal: < 2 s per pass); verdicts come from the call budget
 
 
 class Budget(BaseException):
@@ -197,12 +197,20 @@ def record(raw, lang="en", title="Verif", doc_id=0, lossless=False):
 
     trace = {"id": doc_id, "lossless": bool(lossless), "snaps": [], "raw": raw, "lang": lang,
              "calls": {}, "fired": [], "changed": [], "parse_error": ""}
+    def on_alarm(signum, frame):
+        raise Budget("parse watchdog")
+
+    old = signal.signal(signal.SIGALRM, on_alarm)
+    signal.setitimer(signal.ITIMER_REAL, WATCHDOG_S)
     try:
         tree = parse_string(title, raw=raw, lang=lang)
         advtree.build_advanced_tree(tree)
-    except Exception as e:                                           # noqa: BLE001  (C01's business, not ours)
+    except (Exception, Budget) as e:                                 # noqa: BLE001  (parsing is C01's business, not ours)
         trace["parse_error"] = "%s: %s" % (type(e).__name__, str(e)[:200])
         return trace
+    finally:
+        signal.setitimer(signal.ITIMER_REAL, 0)
+        signal.signal(signal.SIGALRM, old)
     prev = project(tree)
     snap = dict(prev)
     snap.update({"pass": "build", "status": "ok", "stable": True, "errkey": "", "same": False})
